@@ -16,7 +16,7 @@ INFO = {
                "whitespace-delimited noise is delimited the same way values are; a turn of the read loop that ends in a "
                "recoverable error moves neither the per-file nor the run-wide counter (so &index of the values does "
                "not depend on the noise), and next_json_value has consumed at least one byte before any return while "
-               "input remains (the retry loop advances). Each of the 235 byte values that can neither start a value nor are blank costs exactly one byte of input; both sinks write every row before process() returns; every malformed-input error without an io::Error is recoverable.",
+               "input remains (the retry loop advances). Each of the 235 byte values that can neither start a value nor are blank costs exactly one byte of input; both sinks write every row before process() returns; every malformed-input error without an io::Error is recoverable. No io::Error is made up in the crate (malformed input never becomes the fatal IoError).",
     "not_decided": "That the values around the noise come out as the same values (C01's run-time remainder) and the "
                    "number of error lines per region.",
     "trusted": ["sa/tables/rfc8259.toml"],
@@ -27,6 +27,7 @@ def run(ctx, rep):
     lib = ctx.lib
     c06_shared.route(rep, lib)
     c06_shared.recover(rep, lib, rid="C16-RECOVER", require_recoverable=True)
+    PR.io_origin(rep, lib)
     # ------------------------------------------------------------ CLEAN
     r = rep.rule("C06-CLEAN", "a parsed value and end of input produce no diagnostic; the `error:` template and the "
                  "stderr parameter are used only in read_input's error arm", floor=4,
